@@ -321,9 +321,16 @@ def gen_D(rng, tier):
     trees = [{"a": [8, 8]}, {"a": [6, 6], "b": [6, 6]}, {"a": [7, 7, 7]}, {"a": [8]}, {"a": [16, 8]}]
   else:
     trees = [{"a": [9, 6]}, {"a": [8, 6], "b": [7]}, {"a": [6, 5, 7]}, {"a": [12, 8]}]
-  return {"driver": "D", "tree": trees[int(rng.integers(0, len(trees)))], "uniform": uniform, "pmap2": bool(rng.random() < 0.35), "k": int(rng.choice([1, 2])), "b": float(rng.choice([1.0, 0.999, 0.9])),
-          "eps": float(rng.choice([0.0, 1e-6])), "interval": int(rng.choice([1, 1, 2])), "fam": FAMS[int(rng.integers(0, len(FAMS)))],
-          "T": int(rng.integers(3, 9 if tier == "quick" else 21)), "hseed": int(rng.integers(0, 2 ** 31))}
+  c = {"driver": "D", "tree": trees[int(rng.integers(0, len(trees)))], "uniform": uniform, "pmap2": bool(rng.random() < 0.35), "k": int(rng.choice([1, 2])), "b": float(rng.choice([1.0, 0.999, 0.9])),
+       "eps": float(rng.choice([0.0, 1e-6])), "interval": int(rng.choice([1, 1, 2])), "fam": FAMS[int(rng.integers(0, len(FAMS)))],
+       "T": int(rng.integers(3, 9 if tier == "quick" else 21)), "hseed": int(rng.integers(0, 2 ** 31))}
+  # (drawn after the fields above so that older witnesses and the earlier case stream stay reproducible)
+  if not c["pmap2"] and rng.random() < 0.3:
+    c["sharded"] = True          # 2-device mesh, statistics and sketches partitioned over it
+  if rng.random() < 0.3:
+    # average_grad: the sketch absorbs the MEAN of the gradients since the last sketch update
+    c.update(avg=True, interval=int(rng.choice([2, 3])), T=max(c["T"], 7))
+  return c
 
 
 def check_D(c, rec):
@@ -340,7 +347,14 @@ def check_D(c, rec):
   params = {k: np.zeros(tuple(s), np.float32) for k, s in tree.items()}
   try:
     # pmap2: data-parallel over two devices, each replica owns a slice of the statistics (and of the sketches)
-    run = H.Runner(cfgd, params, "pmap", 2) if c.get("pmap2") else H.Runner(cfgd, params, "jit", 1)
+    if c.get("avg"):
+      cfgd["average_grad"] = True
+    if c.get("pmap2"):
+      run = H.Runner(cfgd, params, "pmap", 2)
+    elif c.get("sharded"):
+      run = H.Runner(cfgd, params, "sharded", 2)
+    else:
+      run = H.Runner(cfgd, params, "jit", 1)
   except Exception as e:  # pylint: disable=broad-except
     kind, where = H.classify_exception(e)
     if kind == "reject":
@@ -348,7 +362,10 @@ def check_D(c, rec):
       return
     rec.violation("crash:" + where, "init raised %s: %s" % (type(e).__name__, str(e)[:200]), wit)
     return
-  rec.count("cases_D_pmap2" if c.get("pmap2") else "cases_D_jit")
+  rec.count("cases_D_pmap2" if c.get("pmap2") else ("cases_D_sharded" if c.get("sharded") else "cases_D_jit"))
+  if c.get("avg"):
+    rec.count("cases_D_average_grad")
+  acc = {}
   # per leaf: list of (block slice, axis, size)
   layout = {}
   sizes_all = []
@@ -384,8 +401,16 @@ def check_D(c, rec):
       rec.violation("crash:" + where, "update raised %s: %s" % (type(e).__name__, str(e)[:200]), wit)
       return
     post = run.view()
+    if c.get("avg"):
+      # documented window: the accumulator restarts on the step after a statistics step and the statistics step
+      # absorbs (sum of the window) / interval
+      n_ = c["interval"]
+      for k in tree:
+        acc[k] = np.asarray(g[k], np.float64) if (n_ == 1 or t % n_ == 1 or k not in acc) else acc[k] + np.asarray(g[k], np.float64)
     if t % c["interval"] != 0:
       continue
+    if c.get("avg"):
+      g = {k: acc[k] / c["interval"] for k in tree}
     rec.count("steps_D")
     for k in tree:
       for i, (sl, ax, n) in enumerate(layout[k]):
